@@ -330,8 +330,10 @@ type Contract struct {
 	Ensures    []Clause
 	Defines    []Clause
 	GhostSets  [][2]Clause
+	CallAsserts []CallAssert // callassert <callee> <expr>: obligation at every call of <callee> in this function
 	Modifies   []Clause
 	ModAll     bool // modifies *
+	TrackClock bool // opt trackclock: callees' inferred wall-clock effect is applied (C07)
 	Loops      map[int]*LoopSpec
 	Mode       string // "int" or "bv"
 	Panics     string // "abort" | "violation"
@@ -356,6 +358,11 @@ type SpecFunc struct {
 	Pkg    string
 }
 
+type CallAssert struct {
+	Callee string
+	Cl     Clause
+}
+
 type ContractSet struct {
 	Contracts map[string]*Contract
 	Order     []*Contract
@@ -368,7 +375,7 @@ func NewContractSet() *ContractSet {
 }
 
 var clauseKeywords = map[string]bool{
-	"requires": true, "ensures": true, "defines": true, "ghostset": true, "modifies": true, "invariant": true, "decreases": true,
+	"requires": true, "ensures": true, "defines": true, "ghostset": true, "callassert": true, "modifies": true, "invariant": true, "decreases": true,
 	"panics": true, "mode": true, "trusted": true, "inline": true, "loop": true, "func": true,
 	"extern": true, "extfunc": true, "spec": true, "property": true, "pure": true, "lemma": true, "noeffect": true,
 	"opt": true, "interface": true,
@@ -575,6 +582,19 @@ func (cs *ContractSet) ParseFile(path string, pkgPath string) error {
 					return err
 				}
 				cur.Ensures = append(cur.Ensures, cl)
+			case "callassert":
+				// callassert <callee> <expr>: checked at every call of <callee> (a local function value, a static
+				// callee or an interface method of that name) in this function's own body; the expression is
+				// evaluated in the caller's scope at the call (source locals by name, arg0.. = call arguments)
+				parts := strings.SplitN(text, " ", 2)
+				if len(parts) != 2 {
+					return fmt.Errorf("%s:%d: callassert needs '<callee> <expr>'", path, line)
+				}
+				e, err := parseSpecExpr(strings.TrimSpace(parts[1]))
+				if err != nil {
+					return fmt.Errorf("%s:%d: %v", path, line, err)
+				}
+				cur.CallAsserts = append(cur.CallAsserts, CallAssert{Callee: parts[0], Cl: Clause{Text: strings.TrimSpace(parts[1]), E: e, Line: line}})
 			case "ghostset":
 				// ghostset <ghost location> := <expr>: specification-only state written by this function
 				parts := strings.SplitN(text, ":=", 2)
@@ -665,6 +685,9 @@ func (cs *ContractSet) ParseFile(path string, pkgPath string) error {
 					cur.Opts[strings.TrimSpace(kv[0])] = strings.TrimSpace(kv[1])
 				} else {
 					cur.Opts[text] = "true"
+				}
+				if cur.Opts["trackclock"] != "" {
+					cur.TrackClock = true
 				}
 			}
 		}
